@@ -2,7 +2,7 @@
    Only statements; every proof is `exact <lemma of ForcesProofs*.v>`.  Model: Forces.v at R. *)
 From Coq Require Import NArith ZArith Bool List Lia Reals Lra.
 From Coquelicot Require Import Coquelicot.
-From SC Require Import Num Vec3 VecR Rot Mesh Geometry GeometrySpec Forces ForcesSpec ForcesProofsA ForcesProofsB.
+From SC Require Import Num Vec3 VecR Rot Mesh Geometry GeometrySpec Forces Forces_gen ForcesSpec ForcesProofsA ForcesProofsB.
 From SC Require SourceTies.
 Import ListNotations.
 Local Open Scope R_scope.
@@ -94,3 +94,36 @@ Print Assumptions internal_forces_translation_invariant.
 Theorem vector_algebra_is_what_the_source_says : SourceTies.vec3_tie.
 Proof. exact SourceTies.vec3_model_is_what_the_source_says. Qed.
 Print Assumptions vector_algebra_is_what_the_source_says.
+
+(* THE TIE TO THE SOURCE of the force routines.  Forces_gen.v is regenerated from src/mesh/cell.cpp, src/math_modules/vec3.cpp and
+   include/utils.hpp on every run (harness/translate_forces.py walks the blocks statement by statement: declarations,
+   re-assignments, if / else-if chains, guarded `continue` / `return`, the trailing add_force calls).  The generated functions ARE
+   the hand-written ones about which every theorem above speaks — for every number type and libm, hence also for the extracted
+   binary64 instance: the per-face block of the pressure, of the surface tension / membrane elasticity (with the target area and
+   the elasticity factor), the whole of get_angle_gradient and regularize_face_angles, the per-hinge block of the bending forces,
+   both overloads of vec3::get_angle_with, rotate_around_axis, almost_equal and cot. *)
+Theorem force_model_is_what_the_source_says :
+  (forces_translation_ok = true :> bool) /\
+  (forall (T : Type) (N : Num T) (L : Libm T) (pi dbl_eps dbl_min : T) (u v : vec3 T) (x y : T),
+     angle_with_gen N L u v = angle_with N L u v /\
+     angle_with_nan_gen N L u v = angle_with_nan N L u v /\
+     rotate_around_axis_gen N L u v x = rotate_around_axis N L u v x /\
+     almost_equal_gen N dbl_eps dbl_min x y = almost_equal N dbl_eps dbl_min x y /\
+     cot_gen N L x = cot N L x) /\
+  (forall (T : Type) (N : Num T) (L : Libm T) (pi dbl_eps dbl_min : T) (nodes : list (vec3 T)) (tensions bends : list T)
+          (P ka iso V A kreg : T) (faces : list (@fface T)) (F : list (vec3 T)) (f : @fface T) (h : hinge) (i j k : vec3 T),
+     pressure_face_gen N P F f = pressure_face N P F f /\
+     target_area_gen N L iso V = target_area N L iso V /\
+     elasticity_factor_gen N ka (target_area N L iso V) A = elasticity_factor N ka (target_area N L iso V) A /\
+     tension_face_gen N nodes tensions ka (target_area N L iso V) A F f =
+       tension_face N nodes tensions (elasticity_factor N ka (target_area N L iso V) A) F f /\
+     angle_gradient_gen N L dbl_eps dbl_min i j k = angle_gradient N L dbl_eps dbl_min i j k /\
+     anglereg_face_gen N L pi dbl_eps dbl_min nodes kreg F f = anglereg_face N L pi dbl_eps dbl_min nodes kreg F f /\
+     bending_hinge_gen N L pi nodes bends faces F h = bending_hinge N L pi nodes bends faces F h).
+Proof.
+  split; [reflexivity|]. split.
+  - intros. split; [reflexivity|]. split; [reflexivity|]. split; [reflexivity|]. split; reflexivity.
+  - intros. split; [reflexivity|]. split; [reflexivity|]. split; [reflexivity|]. split; [reflexivity|].
+    split; [reflexivity|]. split; reflexivity.
+Qed.
+Print Assumptions force_model_is_what_the_source_says.
